@@ -54,16 +54,28 @@ def names_and_ints(fdef):
 
 
 def run(report, index, tier):
-    m = index.need(VLQ)
     report.explanation = (
+        'Table/constant agreement between the VLQ writer and reader, read '
+        'from the module constants (folded), and the codec functions '
+        'folded on a table of integers against an independent reference '
+        'encoder.  The bijection law itself for every integer is '
+        'arithmetic and is not decided statically.')
+    rules(report, index)
+
+
+def rules(report, index):
+    """also part of C09: a conforming decoder reads the map only if the
+    digits are the canonical ones"""
+    m = index.need(VLQ)
+    _unused = (
         'Table/constant agreement between the VLQ writer and reader, read '
         'from the module constants (folded) and from the names and '
         'literals the codec functions use.  The bijection law itself is '
         'arithmetic over all integers and is not decided statically.')
     report.not_decided.append(
         'encode/decode inverse law for every integer (arithmetic): R10.2 '
-        'folds the functions only on the 5-bit group boundaries, where the '
-        'number of digits or a carry changes')
+        'folds the functions on [-2100, 2100], the powers of two up to '
+        '2**65 with their neighbours and the 5-bit group boundaries')
     r = report.rule('R10.1', 'canonical alphabet/constants; writer and '
                     'reader agree', floor=2)
     int_b64 = need_const(m, 'INT_B64', types=str)
